@@ -307,3 +307,16 @@ def build_layer(cfg, bank, key_int):
     rhs = cfg["rhs"] if isinstance(cfg["rhs"], int) else tuple(cfg["rhs"])
     stride = cfg["stride"] if isinstance(cfg["stride"], int) else tuple(cfg["stride"])
     return ml.ConvContract(signature(sig_of(cfg["in_sig"])), signature(sig_of(cfg["out_sig"])), bank, cfg["bias"], stride, padding, lhs, rhs, jax.random.PRNGKey(key_int))
+
+
+def sensitivity(f, x, rng, rel=1e-5):
+    """kappa = (trace-normalised output change) / (relative input perturbation): conditioning of f at x."""
+    import jax.numpy as jnp
+    import ginjax.geometric as geom
+
+    S_in = max(trace_scale(x), 1e-30)
+    xp = geom.MultiImage({t: v + jnp.asarray((rel * S_in * rng.normal(size=v.shape)).astype(np.float32)) for t, v in x.data.items()}, x.D, x.is_torus)
+    y, yp = f(x), f(xp)
+    S = trace_scale(x, y)
+    d, msg = compare(yp, probes.blocks(y), None, S)
+    return (d / rel) if msg is None else float("inf")
